@@ -803,31 +803,31 @@ end +-1 and inside, other code lengths, unmapped codes; byte strings over mapped
 isolated (non-single definitions touch nothing, strict), wild and table (anything; failures classified structurally), malformed (byte / hex-byte / blank-run \
 edits) and grammar (24 lines at and beyond the edges of the grammar) — correspondence only. Non-trivial = every case; distinct by request text.".into();
     witnesses(c);
-    for i in 0..c.n(500, 8000) {
+    for i in 0..c.n(2000, 40000) {
         let Some(mut r) = c.case("single", i) else { continue };
         let defs = gen_defs(&mut r, Mode::SingleOnly);
         let secs = sectionize(&mut r, &defs);
         check_case(c, &mut r, "single", &secs, Stats { strict: true }, false);
     }
-    for i in 0..c.n(400, 6000) {
+    for i in 0..c.n(1600, 30000) {
         let Some(mut r) = c.case("isolated", i) else { continue };
         let defs = gen_defs(&mut r, Mode::Isolated);
         let secs = sectionize(&mut r, &defs);
         check_case(c, &mut r, "isolated", &secs, Stats { strict: true }, false);
     }
-    for i in 0..c.n(400, 6000) {
+    for i in 0..c.n(1600, 30000) {
         let Some(mut r) = c.case("wild", i) else { continue };
         let defs = gen_defs(&mut r, Mode::Wild);
         let secs = sectionize(&mut r, &defs);
         check_case(c, &mut r, "wild", &secs, Stats { strict: false }, false);
     }
-    for i in 0..c.n(300, 5000) {
+    for i in 0..c.n(1200, 25000) {
         let Some(mut r) = c.case("table", i) else { continue };
         let defs = gen_table_defs(&mut r);
         let secs = sectionize(&mut r, &defs);
         check_case(c, &mut r, "table", &secs, Stats { strict: false }, false);
     }
-    for i in 0..c.n(300, 5000) {
+    for i in 0..c.n(1500, 25000) {
         let Some(mut r) = c.case("malformed", i) else { continue };
         malformed_case(c, &mut r);
     }
